@@ -488,7 +488,8 @@ func mayAuth(c *Conn) bool {
 // What the server advertises it is willing to do: STARTTLS is put into the
 // capability list only where it is permitted, an AUTH= mechanism only where
 // credentials would be accepted (TLS or InsecureAuth), and LOGINDISABLED only
-// where they would be refused before authentication.
+// where they would be refused before authentication - and there LOGINDISABLED
+// is always advertised (it is the last capability of the list).
 //
 //@ pure
 func capMayBeOffered(c *Conn, x imap.Cap) bool {
@@ -510,6 +511,8 @@ func capMayBeOffered(c *Conn, x imap.Cap) bool {
 //@   props C17:callsite C05:callsite
 //@   callsite append(s []imap.Cap, elems []imap.Cap) requires forall k int :: 0 <= k && k < len(elems) ==> capMayBeOffered(c, elems[k])
 //@   callsite addAvailableCaps(caps *[]imap.Cap, available imap.CapSet, l []imap.Cap) requires forall k int :: 0 <= k && k < len(l) ==> capMayBeOffered(c, l[k])
+//@   props C17:post
+//@   ensures[C17] c.state == imap.ConnStateNotAuthenticated && !mayAuth(c) ==> len(result) > 0 && result[len(result)-1] == imap.CapLoginDisabled
 
 // addAvailableCaps only ever appends elements of the list it is given.
 //
